@@ -1676,6 +1676,30 @@ impl VisitMut for Norm {
                             self.log("N7e2-then-closure", sp);
                         }
                     }
+                    "retain" if mc.args.len() == 1 && matches!(&mc.args[0], Expr::Closure(c) if c.inputs.len() == 2 && !body_has_return(&c.body)) => {
+                        // N8o: MAP.retain(|k, v| B) (std HashMap: two closure parameters) => visit a snapshot of the keys and remove the entries
+                        // for which B is false (definition; the visiting order of a hash map is unspecified and B is evaluated once per entry)
+                        if let Expr::Closure(c) = &mc.args[0] {
+                            let m = &mc.receiver;
+                            let body = &c.body;
+                            let keys = self.fresh("keys");
+                            let k = self.fresh("k");
+                            let keep = self.fresh("keep");
+                            let kp = match c.inputs[0].clone() { Pat::Type(pt) => *pt.pat, p => p };
+                            let vp = match c.inputs[1].clone() { Pat::Type(pt) => *pt.pat, p => p };
+                            let kbind: Vec<Stmt> = if matches!(kp, Pat::Wild(_)) { vec![] } else { vec![parse_quote!(let #kp = #k;)] };
+                            let vbind: Vec<Stmt> = if matches!(vp, Pat::Wild(_)) { vec![] } else { vec![parse_quote!(let #vp = hq_map_value_mut_r(&mut #m, #k);)] };
+                            let ne: Expr = parse_quote!({
+                                let #keys = hq_map_keys_c(&#m);
+                                for #k in #keys.iter() {
+                                    let #keep = { #(#kbind)* #(#vbind)* #body };
+                                    if !#keep { #m.remove(#k); }
+                                }
+                            });
+                            *e = ne;
+                            self.log("N8o-map-retain-to-key-loop", sp);
+                        }
+                    }
                     "retain" | "retain_mut" if mc.args.len() == 1 => {
                         // N8: V.retain(|p| B) / V.retain_mut(|p| B) => index loop with the same visiting order and the same survivors
                         let is_mut = mc.method == "retain_mut";
